@@ -1,429 +1,9 @@
-// C06/C07: drives the real handleRequest / updateTXTimestamp of core/server
-// through the verif hook with a scripted clock, on generated histories of
-// requests and transmit-timestamp updates from several clients, and records
-// every reply together with the client's stored exchanges and the priority
-// queue after every operation.
+// C07 (and the store-level kinds of C06): histories, floods and the
+// lock-discipline check of core/server's timestamp store through the verif
+// hook.  The code lives in verifharness/c06lib; this command emits exactly the
+// case kinds the C07 dispatcher knows (tss.hist, tss.flood, tss.lockdiscipline).
 package main
 
-import (
-	"fmt"
-	"os"
-	"sort"
-	"strconv"
-	"strings"
-	"time"
+import "verifharness/c06lib"
 
-	"example.com/scion-time/core/server"
-	"example.com/scion-time/core/timebase"
-	"example.com/scion-time/net/ntp"
-
-	"verifharness/lib"
-)
-
-type fakeClock struct{ now time.Time }
-
-func (c *fakeClock) Epoch() uint64                                     { return 0 }
-func (c *fakeClock) Now() time.Time                                    { return c.now }
-func (c *fakeClock) Drift(d time.Duration) time.Duration               { return 0 }
-func (c *fakeClock) Step(offset time.Duration)                         {}
-func (c *fakeClock) Adjust(offset, duration time.Duration, f float64) {}
-func (c *fakeClock) Sleep(d time.Duration)                             {}
-
-var (
-	clk = &fakeClock{}
-	w   *lib.Writer
-)
-
-const baseSec = int64(1717171717) // 2024-05-31
-
-func t64num(t ntp.Time64) uint64 { return uint64(t.Seconds)<<32 | uint64(t.Fraction) }
-func t64of(x uint64) ntp.Time64  { return ntp.Time64{Seconds: uint32(x >> 32), Fraction: uint32(x)} }
-func ns(t time.Time) int64       { return t.Unix()*1e9 + int64(t.Nanosecond()) }
-func tm(n int64) time.Time       { return time.Unix(n/1e9, n%1e9).UTC() }
-func key(cid int64) string       { return "c" + strconv.FormatInt(cid, 10) }
-func cidOf(k string) int64       { v, _ := strconv.ParseInt(k[1:], 10, 64); return v }
-
-type op struct {
-	kind              int // 0 handle, 1 update
-	cid               int64
-	org, rx, tx       uint64 // request fields (handle)
-	rxt, now, txt     int64  // ns
-}
-
-func fmtItem(s server.VerifTSSSnapshot, cid int64) string {
-	k := key(cid)
-	for _, it := range s.Items {
-		if it.Key == k {
-			es := make([]string, len(it.Entries))
-			for i, e := range it.Entries {
-				es[i] = lib.L(lib.U(t64num(e.Rxt)), lib.U(t64num(e.Txt)))
-			}
-			return lib.L(lib.U(t64num(it.Qval)), lib.I(int64(it.Qidx)), lib.L(es...))
-		}
-	}
-	return "[]"
-}
-
-func fmtQueue(s server.VerifTSSSnapshot) string {
-	qv := map[string]uint64{}
-	for _, it := range s.Items {
-		qv[it.Key] = t64num(it.Qval)
-	}
-	q := make([]string, len(s.Queue))
-	for i, k := range s.Queue {
-		q[i] = lib.L(lib.I(cidOf(k)), lib.U(qv[k]))
-	}
-	return lib.L(q...)
-}
-
-func fmtFinal(s server.VerifTSSSnapshot) string {
-	items := append([]server.VerifTSSItem(nil), s.Items...)
-	sort.Slice(items, func(i, j int) bool { return cidOf(items[i].Key) < cidOf(items[j].Key) })
-	out := make([]string, len(items))
-	for i, it := range items {
-		es := make([]string, len(it.Entries))
-		for j, e := range it.Entries {
-			es[j] = lib.L(lib.U(t64num(e.Rxt)), lib.U(t64num(e.Txt)))
-		}
-		out[i] = lib.L(lib.I(cidOf(it.Key)), lib.U(t64num(it.Qval)), lib.I(int64(it.Qidx)), lib.L(es...))
-	}
-	return lib.L(out...)
-}
-
-type handleResult struct {
-	org, rx, tx, ref uint64
-	rxt, txt         int64
-}
-
-func doHandle(o op) handleResult {
-	clk.now = tm(o.now)
-	var req ntp.Packet
-	req.SetVersion(ntp.VersionMax)
-	req.SetMode(ntp.ModeClient)
-	req.OriginTime, req.ReceiveTime, req.TransmitTime = t64of(o.org), t64of(o.rx), t64of(o.tx)
-	rxt := tm(o.rxt)
-	var txt time.Time
-	var resp ntp.Packet
-	server.VerifHandleRequest(key(o.cid), &req, &rxt, &txt, &resp)
-	return handleResult{t64num(resp.OriginTime), t64num(resp.ReceiveTime), t64num(resp.TransmitTime), t64num(resp.ReferenceTime), ns(rxt), ns(txt)}
-}
-
-func doUpdate(o op) int64 {
-	txt := tm(o.txt)
-	server.VerifUpdateTXTimestamp(key(o.cid), tm(o.rxt), &txt)
-	return ns(txt)
-}
-
-func fmtOps(ops []op) string {
-	s := make([]string, len(ops))
-	for i, o := range ops {
-		if o.kind == 0 {
-			s[i] = lib.L("0", lib.I(o.cid), lib.U(o.org), lib.U(o.rx), lib.U(o.tx), lib.I(o.rxt), lib.I(o.now))
-		} else {
-			s[i] = lib.L("1", lib.I(o.cid), lib.I(o.rxt), lib.I(o.txt))
-		}
-	}
-	return lib.L(s...)
-}
-
-// runHistory executes the ops on a fresh store and writes one case.
-// gen, when non-nil, is asked for the next op after each step (model-based generation).
-func runHistory(kind string, ops []op, gen func(i int, last *handleResult, lastTxt int64) (op, bool), tagsExtra []string) {
-	server.VerifResetTSS()
-	var obs []string
-	var done []op
-	nInter, nIncr, nRemoved, nUpdated, nStateful := 0, 0, 0, 0, 0
-	i := 0
-	var last *handleResult
-	var lastTxt int64
-	for {
-		var o op
-		if gen != nil {
-			var ok bool
-			o, ok = gen(i, last, lastTxt)
-			if !ok {
-				break
-			}
-		} else {
-			if i >= len(ops) {
-				break
-			}
-			o = ops[i]
-		}
-		done = append(done, o)
-		if o.kind == 0 {
-			before := server.VerifSnapshotTSS()
-			r := doHandle(o)
-			last = &r
-			after := server.VerifSnapshotTSS()
-			if o.rx != o.tx && r.org == o.rx {
-				nInter++
-			}
-			if r.rxt != o.rxt {
-				nIncr++
-			}
-			_ = before
-			it := fmtItem(after, o.cid)
-			if it != "[]" {
-				nStateful++
-			}
-			obs = append(obs, lib.L("0", lib.U(r.org), lib.U(r.rx), lib.U(r.tx), lib.U(r.ref), lib.I(r.rxt), lib.I(r.txt), it, fmtQueue(after)))
-		} else {
-			before := fmtItem(server.VerifSnapshotTSS(), o.cid)
-			t := doUpdate(o)
-			lastTxt = t
-			last = nil
-			after := server.VerifSnapshotTSS()
-			it := fmtItem(after, o.cid)
-			if it != before {
-				if len(it) < len(before) {
-					nRemoved++
-				} else {
-					nUpdated++
-				}
-			}
-			obs = append(obs, lib.L("1", lib.I(t), it, fmtQueue(after)))
-		}
-		i++
-	}
-	final := server.VerifSnapshotTSS()
-	tags := append([]string{}, tagsExtra...)
-	if nInter > 0 {
-		tags = append(tags, "inter")
-	}
-	if nIncr > 0 {
-		tags = append(tags, "collision")
-	}
-	if nRemoved > 0 {
-		tags = append(tags, "removed")
-	}
-	if nUpdated > 0 {
-		tags = append(tags, "txupdated")
-	}
-	if nInter > 0 && nIncr > 0 && nRemoved > 0 {
-		tags = append(tags, "nt")
-	}
-	w.Case(kind, strings.Join(tags, ","), fmtOps(done), lib.V(lib.L(obs...), fmtFinal(final)))
-}
-
-// ---- model-based generator ----
-
-type pending struct {
-	cid      int64
-	rxt, txt int64
-}
-
-type genState struct {
-	r        *lib.Rng
-	nclients int
-	nops     int
-	t        int64                // current base time (ns)
-	replies  map[int64][]uint64   // rx stamps handed out per client
-	lastRxt  map[int64]int64      // last (final) receive time per client, ns
-	allRxt   map[int64][]int64    // receive times used per client
-	pend     []pending
-	lastOp   *op
-	burst    int64 // client id currently sending a burst (fills the 8 slots), or -1
-}
-
-func (g *genState) pickRxt(cid int64) int64 {
-	r := g.r
-	switch r.Intn(10) {
-	case 0, 1: // collide with an earlier receive time of this client
-		if l := g.allRxt[cid]; len(l) > 0 {
-			return l[r.Intn(len(l))]
-		}
-	case 2: // one ns after an earlier one
-		if l := g.allRxt[cid]; len(l) > 0 {
-			return l[r.Intn(len(l))] + 1
-		}
-	case 3: // earlier than before (decreasing)
-		if v, ok := g.lastRxt[cid]; ok {
-			return v - r.Range(1, 2000)
-		}
-	case 4: // collide with another client's receive time
-		for c2, l := range g.allRxt {
-			if c2 != cid && len(l) > 0 {
-				return l[len(l)-1]
-			}
-		}
-	}
-	g.t += r.Range(1, 1000000)
-	return g.t
-}
-
-func (g *genState) next(i int, last *handleResult, lastTxt int64) (op, bool) {
-	r := g.r
-	if g.lastOp != nil && g.lastOp.kind == 0 && last != nil {
-		// record what the previous handle produced
-		c := g.lastOp.cid
-		g.replies[c] = append(g.replies[c], last.rx)
-		g.lastRxt[c] = last.rxt
-		g.allRxt[c] = append(g.allRxt[c], last.rxt)
-		g.pend = append(g.pend, pending{c, last.rxt, last.txt})
-	}
-	if i >= g.nops {
-		return op{}, false
-	}
-	var o op
-	doUpdate := len(g.pend) > 0 && (r.Intn(100) < 45 || len(g.pend) > 6)
-	if r.Intn(40) == 0 {
-		// stray update for a receive time that is not on record
-		o = op{kind: 1, cid: int64(r.Intn(g.nclients)), rxt: g.t - 12345, txt: g.t}
-	} else if doUpdate {
-		j := 0
-		if r.Intn(3) == 0 {
-			j = r.Intn(len(g.pend)) // delayed past later operations
-		}
-		p := g.pend[j]
-		g.pend = append(g.pend[:j], g.pend[j+1:]...)
-		var txt int64
-		switch r.Intn(8) {
-		case 0, 1, 2: // transmit timestamp could not be read: the value handleRequest reported
-			txt = p.txt
-		case 3: // not later than the receive time
-			txt = p.rxt - r.Range(0, 50)
-		case 4:
-			txt = p.rxt + 1
-		default: // kernel timestamp a little later
-			txt = p.txt + r.Range(1, 50000)
-		}
-		o = op{kind: 1, cid: p.cid, rxt: p.rxt, txt: txt}
-		if r.Intn(25) == 0 {
-			// the same update reported twice (second one finds the value unchanged)
-			g.pend = append(g.pend, p)
-		}
-	} else {
-		var cid int64
-		if g.burst >= 0 && r.Intn(10) < 8 {
-			cid = g.burst
-		} else {
-			cid = int64(r.Intn(g.nclients))
-			if r.Intn(6) == 0 {
-				g.burst = cid
-			} else if r.Intn(4) == 0 {
-				g.burst = -1
-			}
-		}
-		rxt := g.pickRxt(cid)
-		var now int64
-		switch r.Intn(8) {
-		case 0:
-			now = rxt - r.Range(0, 2000) // clock reading not later than the receive stamp
-		case 1:
-			now = rxt
-		case 2:
-			now = rxt + 1
-		case 3:
-			now = rxt + 2
-		default:
-			now = rxt + r.Range(1, 100000)
-		}
-		var org uint64
-		switch r.Intn(10) {
-		case 0, 1, 2, 3, 4: // receive stamp of an earlier reply to this client
-			if l := g.replies[cid]; len(l) > 0 {
-				if r.Intn(3) == 0 {
-					org = l[r.Intn(len(l))]
-				} else {
-					org = l[len(l)-1-r.Intn(min(len(l), 3))]
-				}
-			}
-		case 5, 6: // receive stamp handed to another client
-			for c2, l := range g.replies {
-				if c2 != cid && len(l) > 0 {
-					org = l[r.Intn(len(l))]
-					break
-				}
-			}
-		case 7:
-			org = r.U64()
-		default:
-			org = 0
-		}
-		crx := uint64(r.U64())
-		ctx := uint64(r.U64())
-		switch r.Intn(6) {
-		case 0:
-			ctx = crx // receive == transmit: never interleaved
-		case 1:
-			crx, ctx = 0, uint64(r.U64())
-		}
-		o = op{kind: 0, cid: cid, org: org, rx: crx, tx: ctx, rxt: rxt, now: now}
-	}
-	g.lastOp = &o
-	return o, true
-}
-
-func genHistory(r *lib.Rng, nclients, nops int) {
-	g := &genState{r: r, nclients: nclients, nops: nops, t: baseSec*1e9 + r.Range(0, 1e9), replies: map[int64][]uint64{},
-		lastRxt: map[int64]int64{}, allRxt: map[int64][]int64{}, burst: -1}
-	runHistory("tss.hist", nil, g.next, nil)
-}
-
-// parse a replay line's ops
-func parseOps(s string) []op {
-	s = strings.TrimSpace(s)
-	s = strings.TrimPrefix(s, "[")
-	s = strings.TrimSuffix(s, "]")
-	var ops []op
-	for _, part := range strings.Split(s, "]") {
-		part = strings.TrimSpace(part)
-		part = strings.TrimPrefix(part, "[")
-		f := strings.Fields(part)
-		if len(f) == 0 {
-			continue
-		}
-		if f[0] == "0" && len(f) == 7 {
-			ops = append(ops, op{kind: 0, cid: lib.ParseI(f[1]), org: lib.ParseU(f[2]), rx: lib.ParseU(f[3]), tx: lib.ParseU(f[4]), rxt: lib.ParseI(f[5]), now: lib.ParseI(f[6])})
-		} else if f[0] == "1" && len(f) == 4 {
-			ops = append(ops, op{kind: 1, cid: lib.ParseI(f[1]), rxt: lib.ParseI(f[2]), txt: lib.ParseI(f[3])})
-		} else {
-			panic("bad op in replay: " + part)
-		}
-	}
-	return ops
-}
-
-func main() {
-	a := lib.ParseArgs()
-	timebase.RegisterClock(clk)
-	w = lib.NewWriter(a.Out)
-	defer w.Close()
-	if a.Replay != "" {
-		for _, l := range lib.ReplayLines(a.Replay) {
-			switch l[0] {
-			case "tss.hist":
-				runHistory("tss.hist", parseOps(l[2]), nil, nil)
-			case "tss.flood":
-				f := lib.Fields(l[2])
-				flood(lib.ParseI(f[0]), lib.ParseI(f[1]), lib.ParseI(f[2]))
-			case "tss.lockdiscipline":
-				lockDiscipline()
-			}
-		}
-		return
-	}
-	lockDiscipline()
-	r := lib.NewRng(a.Seed)
-	n := 700
-	if a.Tier == "thorough" {
-		n = 6000
-	}
-	for i := 0; i < n; i++ {
-		nclients := 1 + r.Intn(6)
-		nops := 5 + r.Intn(60)
-		if i%10 == 0 {
-			nops = 100 + r.Intn(300)
-		}
-		genHistory(r.Fork(), nclients, nops)
-	}
-	nf := 1
-	if a.Tier == "thorough" {
-		nf = 4
-	}
-	for i := 0; i < nf; i++ {
-		flood(int64(i%4), int64(3+r.Intn(40)), int64(r.Intn(1<<30)))
-	}
-	fmt.Fprintf(os.Stderr, "c06: %d cases\n", w.N())
-}
+func main() { c06lib.Main(false) }
